@@ -32,6 +32,7 @@ Abstract value            Python value fed to to_binary (variants)              
   udt (fields f1..fn)     A: tuple   B: object with attributes f1..fn               namedtuple-like with _fields = names
   vector                  A: list    B: tuple                                       list
   {sign, base, off}       sign * (2**base + off)  (an out-of-range number)
+  {neg, mag}              wide integer: (-1 if neg else 1) * int.from_bytes(mag, "big")  (varint, bigint, decimal unscaled)
 """
 import datetime
 import decimal
@@ -185,6 +186,11 @@ def features(t, v, out=None):
     if is_scalar(t):
         if isinstance(v, dict) and v.get("aware"):
             out.add("aware-timestamp" if v["off"] else "aware-timestamp-utc")
+        w = v[1] if k == "decimal" and isinstance(v, list) and len(v) == 2 else v
+        if isinstance(w, dict) and "mag" in w:
+            out.add("wide-integer")
+            if len(w["mag"]) >= 8:
+                out.add("wide-integer-64bit-and-beyond")
         return out
     if k in ("list", "set"):
         if not v:
@@ -223,8 +229,11 @@ _MAX_DAYS = (datetime.date.max - datetime.date(1970, 1, 1)).days
 
 
 def number(x):
-    if isinstance(x, dict):                      # sign * (2^base + off): a number TLC cannot hold
-        return x["sign"] * (2 ** x["base"] + x["off"])
+    if isinstance(x, dict):
+        if "mag" in x:                           # wide integer: sign + big-endian magnitude bytes (Codec.tla WVals), exact
+            n = int.from_bytes(bytes(x["mag"]), "big")
+            return -n if x["neg"] else n
+        return x["sign"] * (2 ** x["base"] + x["off"])      # sign * (2^base + off): an out-of-range probe
     return x
 
 
@@ -261,7 +270,7 @@ def py_scalar(drv, k, x, variant):
             return datetime.date(1970, 1, 1) + datetime.timedelta(days=d)
         return drv.util.Date(d)
     if k == "decimal":
-        scale, u = x
+        scale, u = x[0], number(x[1])
         return decimal.Decimal((1 if u < 0 else 0, tuple(int(c) for c in str(abs(u))), -scale))
     if k == "duration":
         return drv.util.Duration(x[0], x[1], x[2])
@@ -368,7 +377,7 @@ def expected_scalar(k, x):
     if k == "boolean":
         return ("bool", bool(x))
     if k in ("tinyint", "smallint", "int", "bigint", "counter", "varint"):
-        return ("int", x)
+        return ("int", number(x))
     if k == "timestamp":
         return ("datetime", (EPOCH + datetime.timedelta(milliseconds=x)).isoformat(), True)
     if k == "time":
@@ -376,7 +385,7 @@ def expected_scalar(k, x):
     if k == "date":
         return ("date", x)
     if k == "decimal":
-        scale, u = x
+        scale, u = x[0], number(x[1])
         return ("decimal", 1 if u < 0 else 0, tuple(int(c) for c in str(abs(u))), -scale)
     if k == "duration":
         return ("duration", x[0], x[1], x[2])
@@ -603,8 +612,9 @@ def describe(st):
 ALL_SCALARS = {"boolean", "tinyint", "smallint", "int", "bigint", "counter", "timestamp", "time", "varint", "decimal",
                "date", "duration", "ascii", "text", "blob", "uuid", "timeuuid", "inet"}
 INVARIANTS = ["TypeOK", "RoundTrip", "LengthConsistent", "FixedWidths", "NormIdempotent", "VarintMinimal",
-              "VintCanonical", "WidthRule", "RaiseJustified"]
-WITNESSES = ["Witness_NullField", "Witness_ShortUdt", "Witness_AwareOffset", "Witness_V2Width", "Witness_Vint5", "Witness_Varint3",
+              "VintCanonical", "WidthRule", "RaiseJustified", "WideRoundTrip", "WideMinimal", "WideAgrees32", "WideLong"]
+WITNESSES = ["Witness_NullField", "Witness_WideNeg8", "Witness_AwareOffset", "Witness_ShortUdt", "Witness_Wide9",
+             "Witness_WideRaise", "Witness_V2Width", "Witness_Vint5", "Witness_Varint3",
              "Witness_Raise", "Witness_VarVector", "Witness_LongVecElem"]
 VEC_SCALARS = {"int", "bigint", "timestamp", "boolean", "uuid", "text", "varint", "blob", "decimal", "inet"}
 
@@ -628,9 +638,9 @@ def runs(quick):
     """(label, families) per TLC run"""
     if quick:
         return [("scalars, depth-1 composites, range errors, nesting to depth 3 (small alphabets)",
-                 ["scalar", "list", "set", "map", "tuple", "udt", "vector", "range", "tz", "nest2", "nest3"])]
-    return [("scalars (full boundary alphabets), lists, sets, range errors, timestamps as wall clock + UTC offset",
-             ["scalar", "list", "set", "range", "tz"]),
+                 ["scalar", "list", "set", "map", "tuple", "udt", "vector", "range", "tz", "wide", "nest2", "nest3"])]
+    return [("scalars (full boundary alphabets), lists, sets, range errors, timestamps as wall clock + UTC offset, wide integers",
+             ["scalar", "list", "set", "range", "tz", "wide"]),
             ("maps", ["map"]),
             ("tuples, UDTs, vectors", ["tuple", "udt", "vector"]),
             ("nesting depth 2", ["nest2"]),
@@ -662,7 +672,14 @@ def enumerate_cases(ctx, tlc, module="Codec"):
         need = {"ok": "Case", "null": "CellCase", "empty": "CellCase"}
         if "range" in fams:
             need["raise"] = "RangeCase"
-        if "tz" in fams and not any(isinstance(s["val"], dict) for s in states if s["expect"] == "ok"):
+        if "wide" in fams and not {"wide", "wraise"} <= seen:
+            raise tlc.MachineryError("vacuity: action WideCase never taken (both outcomes) in run %s" % label)
+        for s_ in states:                      # the harness treats a wide-integer case like any other
+            if s_["expect"] == "wide":
+                s_["expect"] = "ok"
+            elif s_["expect"] == "wraise":
+                s_["expect"] = "raise"
+        if "tz" in fams and not any(isinstance(s["val"], dict) and "wall" in s["val"] for s in states if s["expect"] == "ok"):
             raise tlc.MachineryError("vacuity: action TzCase never taken in run %s" % label)
         for k, action in need.items():
             if k not in seen:
@@ -674,7 +691,7 @@ def enumerate_cases(ctx, tlc, module="Codec"):
 def check_witnesses(ctx, tlc):
     """vacuity: TLC must VIOLATE each witness on a small configuration"""
     import os
-    consts = constants(True, ["scalar", "list", "tuple", "udt", "vector", "range", "tz"])
+    consts = constants(True, ["scalar", "list", "tuple", "udt", "vector", "range", "tz", "wide"])
     consts.update(TopScalars={"varint", "duration"}, ElemScalars={"int"}, FieldScalars={"int", "text"},
                   VecScalars={"text"}, B0=9)
     names = WITNESSES[:3] if ctx.quick else WITNESSES
